@@ -164,7 +164,7 @@ func ruleLiteralSource(p *Prog, r *Report) {
 	sort.Strings(fns)
 	for _, name := range fns {
 		key := rule + ":sml." + name
-		if p.Func("sml", "(*parser)."+name) == nil {
+		fromDispatcher := func() {
 			// another name or shape: decide from the dispatcher, per keyword
 			kws := map[string][]string{"parseFloat": {"F4", "F8"}, "parseInt": {"I1", "I2", "I4", "I8"}, "parseUint": {"U1", "U2", "U4", "U8"}, "parseBinary": {"B"}}[name]
 			used := map[string]bool{}
@@ -193,6 +193,9 @@ func ruleLiteralSource(p *Prog, r *Report) {
 			default:
 				r.bad(rule, key, "", fmt.Sprintf("literals of this item type are read by strconv.%s; the item's values must come from strconv.%s alone (an extra integer path loses -0 and exponent forms, an extra float path loses integer precision)", strings.Join(l, " and "), want[name]))
 			}
+		}
+		if p.Func("sml", "(*parser)."+name) == nil {
+			fromDispatcher()
 			continue
 		}
 		fn := p.MustFunc(r, "sml", "(*parser)."+name)
@@ -207,6 +210,9 @@ func ruleLiteralSource(p *Prog, r *Report) {
 				return
 			}
 			seen[f] = true
+			for _, a := range f.AnonFuncs {
+				walk(a, d) // a conversion closure handed to a shared loop
+			}
 			for _, b := range f.Blocks {
 				for _, instr := range b.Instrs {
 					if c, ok := instr.(*ssa.Call); ok {
@@ -229,6 +235,11 @@ func ruleLiteralSource(p *Prog, r *Report) {
 			l = append(l, u)
 		}
 		sort.Strings(l)
+		if len(l) == 0 {
+			// no conversion found below the function by reading it: evaluate
+			fromDispatcher()
+			continue
+		}
 		if len(l) == 1 && l[0] == want[name] {
 			r.ok(rule, key, p.Pos(fn.Pos()), "literals are read by strconv."+want[name]+" only")
 		} else {
